@@ -184,43 +184,47 @@ pub fn explore<M: Model>(m: &M, roots: &[M::S], lim: &Limits) -> (Stats, Option<
         }
         // expand two levels sequentially to create parallel tasks (keeps determinism of the visited-set semantics)
         for _lvl in 0..2 {
-            if tasks.len() >= 256 {
+            if tasks.len() >= 64 {
                 break;
             }
-            let mut next = vec![];
-            for (ri, s, path, rem) in tasks.into_iter() {
-                if rem == 0 {
-                    sh.leaves.fetch_add(1, Ordering::Relaxed);
-                    continue;
-                }
-                for op in m.ops(&s) {
-                    sh.transitions.fetch_add(1, Ordering::Relaxed);
-                    let mut p2 = path.clone();
-                    p2.push(op.clone());
-                    match m.step(&s, &op) {
-                        Err(detail) => {
-                            sh.found.lock().unwrap().push(Found { root: ri, path: p2, detail });
-                        }
-                        Ok(None) => {
-                            sh.leaves.fetch_add(1, Ordering::Relaxed);
-                        }
-                        Ok(Some(n)) => {
-                            let (is_new, expand) = sh.visited.visit(m.fp(&n), rem - 1);
-                            if is_new {
-                                sh.state_count.fetch_add(1, Ordering::Relaxed);
-                                if let Err(detail) = m.check_state(&n) {
-                                    sh.found.lock().unwrap().push(Found { root: ri, path: p2.clone(), detail });
-                                }
+            let next: Vec<(usize, M::S, Vec<M::O>, u8)> = tasks
+                .par_iter()
+                .flat_map_iter(|(ri, s, path, rem)| {
+                    let mut next = vec![];
+                    if *rem == 0 {
+                        sh.leaves.fetch_add(1, Ordering::Relaxed);
+                        return next;
+                    }
+                    for op in m.ops(s) {
+                        sh.transitions.fetch_add(1, Ordering::Relaxed);
+                        let mut p2 = path.clone();
+                        p2.push(op.clone());
+                        match m.step(s, &op) {
+                            Err(detail) => {
+                                sh.found.lock().unwrap().push(Found { root: *ri, path: p2, detail });
                             }
-                            if expand {
-                                next.push((ri, n, p2, rem - 1));
-                            } else {
+                            Ok(None) => {
                                 sh.leaves.fetch_add(1, Ordering::Relaxed);
+                            }
+                            Ok(Some(n)) => {
+                                let (is_new, expand) = sh.visited.visit(m.fp(&n), rem - 1);
+                                if is_new {
+                                    sh.state_count.fetch_add(1, Ordering::Relaxed);
+                                    if let Err(detail) = m.check_state(&n) {
+                                        sh.found.lock().unwrap().push(Found { root: *ri, path: p2.clone(), detail });
+                                    }
+                                }
+                                if expand {
+                                    next.push((*ri, n, p2, rem - 1));
+                                } else {
+                                    sh.leaves.fetch_add(1, Ordering::Relaxed);
+                                }
                             }
                         }
                     }
-                }
-            }
+                    next
+                })
+                .collect();
             tasks = next;
             if !sh.found.lock().unwrap().is_empty() {
                 break;
